@@ -1105,3 +1105,89 @@ def r_no_ambient_reads(repo, rep, R, files, consequence, allow=()):
                       '%s:%s:ambient:%s' % (rel, qualname_of(fn) if fn is not None else '<module>', what.split(' ')[0]), '',
                       '%s is read while rendering: its value is not determined by the parse results -- %s' % (what, consequence))
     rep.check(True, R, files[0], 'printers:no-ambient-values', 'what is written is computed from the parse results alone: no clock, random number, process identity or object address is read in %d modules' % n, '')
+
+
+# ---------------------------------------------------------------------------------------------------------------------
+# functions defined in a loop that read the loop's variable when they are *called*
+# ---------------------------------------------------------------------------------------------------------------------
+LATE_BINDING_EXAMPLE = '''
+rules = []
+for symbol, pattern in TABLE:
+    def rule(x, y, pattern=pattern):
+        if match(pattern, x, y):
+            return Result(x, symbol)
+        return None
+    rules.append(rule)
+'''
+
+
+def late_bound_reads(tree):
+    """a function (or lambda) defined in the body of a loop and stored for later (appended / added / put into a table) that reads a
+    name the loop rebinds in every round, not as one of its own defaults but as a free name: a name is looked up when the function
+    runs, so every stored function sees the value of the last round.  -> [(function node, free name, loop, storing node)]"""
+    STORE = {'append', 'add', 'insert', 'extend', 'setdefault', 'update', 'register', 'appendleft'}
+    out = []
+    for L in [n for n in ast.walk(tree) if isinstance(n, (ast.For, ast.While))]:
+        scope = enclosing_function(L)
+        varying = set()
+        if isinstance(L, ast.For):
+            varying |= {x.id for x in ast.walk(L.target) if isinstance(x, ast.Name)}
+        for st in L.body:
+            for x in ast.walk(st):
+                if isinstance(x, ast.Name) and isinstance(x.ctx, ast.Store) and enclosing_function(x) is scope:
+                    varying.add(x.id)
+        for F in [f for st in L.body for f in ast.walk(st) if isinstance(f, (ast.FunctionDef, ast.Lambda)) and enclosing_function(f) is scope]:
+            params = {a.arg for a in F.args.posonlyargs + F.args.args + F.args.kwonlyargs}
+            if F.args.vararg:
+                params.add(F.args.vararg.arg)
+            if F.args.kwarg:
+                params.add(F.args.kwarg.arg)
+            body = F.body if isinstance(F.body, list) else [F.body]
+            own = {x.id for s in body for x in ast.walk(s) if isinstance(x, ast.Name) and isinstance(x.ctx, ast.Store)} | \
+                  {a.arg for s in body for f2 in ast.walk(s) if isinstance(f2, (ast.FunctionDef, ast.Lambda)) for a in f2.args.args}
+            free = sorted({x.id for s in body for x in ast.walk(s) if isinstance(x, ast.Name) and isinstance(x.ctx, ast.Load)} - params - own)
+            late = [n for n in free if n in varying and not (isinstance(F, ast.FunctionDef) and n == F.name)]
+            if not late:
+                continue
+            # is the function object kept beyond the round?
+            stored = None
+            if isinstance(F, ast.Lambda):
+                refs = [F]
+            else:
+                refs = [x for st in L.body for x in ast.walk(st) if isinstance(x, ast.Name) and x.id == F.name and isinstance(x.ctx, ast.Load)]
+            for r in refs:
+                p = getattr(r, '_parent', None)
+                while isinstance(p, (ast.Tuple, ast.List, ast.Starred)):
+                    r, p = p, getattr(p, '_parent', None)
+                if isinstance(p, ast.Call) and r in p.args and isinstance(p.func, ast.Attribute) and p.func.attr in STORE:
+                    stored = p
+                elif isinstance(p, ast.Assign) and p.value is r and any(isinstance(t, (ast.Subscript, ast.Attribute)) for t in p.targets):
+                    stored = p
+                elif isinstance(p, ast.keyword) and isinstance(getattr(p, '_parent', None), ast.Call) and isinstance(p._parent.func, ast.Attribute) and p._parent.func.attr in STORE:
+                    stored = p._parent
+                elif isinstance(p, ast.Yield):
+                    stored = p
+            if stored is not None:
+                for n in late:
+                    out.append((F, n, L, stored))
+    return out
+
+
+def r_late_binding(repo, rep, R, files, consequence):
+    from .core import attach_parents
+    ex = attach_parents(ast.parse(LATE_BINDING_EXAMPLE))
+    if [(h[1], h[0].lineno, h[3].lineno) for h in late_bound_reads(ex)] != [('symbol', 4, 8)]:
+        raise AnalysisError('the late-binding rule does not match its positive example')
+    n = 0
+    for rel in files:
+        tree = attach_parents(ast.parse(repo.text(rel)))        # the text as written: the loops are taken apart before the rules read the module
+        hits = late_bound_reads(tree)
+        n += 1
+        for F, name, L, st in hits:
+            fname = getattr(F, 'name', '<lambda>')
+            rep.violation(R, '%s:%s %s' % (rel, F.lineno, fname), '%s:%s:late-bound:%s' % (rel, fname, name),
+                          '%s, defined in the loop at line %s and stored at line %s, reads `%s` as a free name: the name is looked up when the function is called, '
+                          'after the loop has finished, so every stored function sees the value of the last round -- %s' % (fname, L.lineno, st.lineno, name, consequence))
+        if not hits:
+            rep.ok(R, '%s' % rel, '%s: no function defined in a loop and kept reads a loop variable as a free name' % rel, nontrivial=False)
+    return n
